@@ -3,6 +3,7 @@ package main
 import (
 	"fmt"
 	"math/big"
+	"strings"
 
 	"verif/harness/gen"
 	"verif/harness/mon"
@@ -85,6 +86,9 @@ func forgeryMode(c *mon.Ctx, scheme string, got, want []string) int {
 		return modeSkip
 	}
 	for _, g := range got {
+		if i := strings.LastIndexByte(g, ':'); i >= 0 { // "perm:generator", "vec:shape" inside a table lookup
+			g = g[i+1:]
+		}
 		if g != ckGenerator && g != ckShape && g != ckDomain {
 			return modeStrict
 		}
@@ -397,7 +401,7 @@ func (e *env) permTargeted(r *gen.Rng, s permStmt, honest any) {
 			c.Inconclusive("%s: low-order generator forgery not exact n=%d k=%d", e.perm, n, k)
 			continue
 		}
-		try(fmt.Sprintf("generator/order-%d-of-%s", len(orbit), ordClass(len(orbit), n)), o.P, []string{ckGenerator}, fmt.Sprintf("g=w^%d t2'=%s", k, shorts(t2v)))
+		try("generator/order-"+ordClass(len(orbit), n), o.P, []string{ckGenerator}, fmt.Sprintf("g=w^%d t2'=%s", k, shorts(t2v)))
 	}
 	// 6b. g replaced in the honest proof
 	for _, k := range []int{0, 2, 3, n - 1, n / 2} {
